@@ -45,6 +45,9 @@ def _lead(rng):
     return tuple(int(s) for s in rng.integers(1, 4, n))
 
 
+EXTREME_SCALES = [True]     # switched off while drawing quadrature cases (the fixed grids assume moderate scales)
+
+
 def _spd(rng, lead, D, complex_=False):
     """random non-diagonal SPD / HPD matrices with condition number 10^U(0,8)"""
     a = rng.normal(size=(*lead, D, D))
@@ -57,10 +60,13 @@ def _spd(rng, lead, D, complex_=False):
         ev[..., 0] = 1.0
         ev[..., -1] = 10.0 ** (-logc[..., 0])
     ev = ev * 10.0 ** rng.uniform(-2, 2, size=lead + (1,))
-    if rng.random() < 0.2:
+    if EXTREME_SCALES[0] in ('force+', 'force-') and D >= 3:
+        ev = ev * 10.0 ** ((1 if EXTREME_SCALES[0] == 'force+' else -1) * min(150.0, 320.0 / D + 3.0))
+    elif EXTREME_SCALES[0] is True and rng.random() < 0.3:
         # the absolute scale of a covariance is free (only the condition number is bounded): det may leave the binary64
         # range although log det is an ordinary number
-        ev = ev * 10.0 ** rng.choice([-45.0, -30.0, 30.0, 45.0], size=lead + (1,))
+        e_big = min(150.0, 320.0 / D + 3.0)          # |D * e_big| > 308 for D >= 3: det over/underflows, log det does not
+        ev = ev * 10.0 ** rng.choice([-e_big, -30.0, 30.0, e_big], size=lead + (1,))
     cov = np.einsum('...ik,...k,...jk->...ij', q, ev, q.conj())
     cov = (cov + np.conj(np.swapaxes(cov, -1, -2))) / 2
     return cov, q, ev
@@ -581,6 +587,14 @@ def _rotation_to(mu):
 
 def gen_integral(rng, fam):
     """payload with one distribution (no leading axis) of small dimension"""
+    EXTREME_SCALES[0] = False
+    try:
+        return _gen_integral(rng, fam)
+    finally:
+        EXTREME_SCALES[0] = True
+
+
+def _gen_integral(rng, fam):
     if fam in ('gauss_full', 'gauss_diag', 'gauss_sph'):
         D = int(rng.integers(1, 3))
         rp = gen(rng, fam, 'quick')
@@ -691,6 +705,13 @@ def cases(rng, tier):
     for fam in REPARAM_FAMS:
         for _ in range(2 if tier == 'quick' else 12):
             out.append(make_reparam_case(rng, fam))
+    # covariances whose determinant leaves the binary64 range in either direction (log det is an ordinary number)
+    for i in range(4 if tier == 'quick' else 24):
+        EXTREME_SCALES[0] = 'force+' if i % 2 else 'force-'
+        try:
+            out.append(make_case(rng, ['ccsg', 'gauss_full'][(i // 2) % 2], tier))
+        finally:
+            EXTREME_SCALES[0] = True
     return out
 
 
